@@ -67,7 +67,8 @@ OP_BASE = dict({k: v for k, v in AS_BASE.items() if not k.startswith(("revocatio
 
 RETYPES = [None, True, False, 0, 1, 5, 1.5, "", "x", "implicit", "none", "http://as.example/p", "https://as.example/p?q=1",
            "https://as.example/p#f", "HTTPS://AS.example", "http://localhost:8000/x", "//as.example/x", "https:///nohost",
-           "mailto:a@b", [], ["x"], ["none"], ["implicit"], ["authorization_code"], ["private_key_jwt"], ["RS256", "none"],
+           "mailto:a@b", "https://:8443/cb", "https://user@/cb", "https://user:pw@:443/cb", "https://user@as.example:8443/cb",
+           [], ["x"], ["none"], ["implicit"], ["authorization_code"], ["private_key_jwt"], ["RS256", "none"],
            ["public"], ["page", "bogus"], [["x"]], [{"a": 1}], [1, None], {}, {"implicit": 1}, {"a": 1, "b": 2}]
 
 
@@ -152,7 +153,7 @@ SERVERS = [
     {"scopes_supported": ["a"], "grant_types_supported": ["implicit"], "response_types_supported": ["token"],
      "token_endpoint_auth_methods_supported": ["client_secret_post"]},
 ]
-URI_POOL = [None, "", "https://c.example/x", "http://c.example/x", "https://c.example/x#frag", "/relative", "c.example/x",
+URI_POOL = [None, "", "https://:8443/cb", "https://user@/cb", "https://user:pw@:443/cb", "https://user@c.example:8443/cb", "https://c.example/x", "http://c.example/x", "https://c.example/x#frag", "/relative", "c.example/x",
             "https:///nohost", "mailto:a@b", "app://callback", "https://c.example/x?y=1", "HTTPS://C.example"]
 
 
@@ -363,6 +364,34 @@ def absolute_fragment_free(u):
     return bool(p.scheme) and bool(p.hostname) and not p.fragment
 
 
+def run_urls(ctx):
+    """The URL predicates themselves (is_valid_url, is_secure_transport, urlparse) on a generated URL grammar."""
+    import urllib.parse as up
+    from authlib.common.urls import is_valid_url
+    from authlib.common.security import is_secure_transport
+    m = ctx.model
+    rng = ctx.rng
+    pieces = ["https", "http", "HTTP", "ftp", "mailto", "a+b", "1x", "", ":", "//", "/", "host", "Host.EX", "user@", "u:p@",
+              ":80", ":", "?", "q=1", "&x", "#", "frag", ";", "p;x", "/a/b", "/a;p/b;q", " ", "\t", "%41", "localhost", "x y", "@"]
+    n = 1500 if ctx.tier == "quick" else 30000
+    for i in range(n):
+        u = "".join(rng.choice(pieces) for _ in range(rng.randint(0, 6)))
+        try:
+            parsed = list(up.urlparse(u))
+        except ValueError:
+            continue
+        ctx.case({"url": u}, ("url", u), "url")
+        ctx.compare("urlparse", u, parsed, m.call("urlparse", u))
+        ctx.compare("urlunparse", u, up.urlunparse(parsed), m.call("urlunparse", parsed))
+        for fa in (True, False):
+            ctx.compare("is_valid_url", [u, fa], bool(is_valid_url(u, fa)), m.call("is_valid_url", {"url": u, "fragments_allowed": fa}))
+        ctx.compare("is_secure_transport", u, bool(is_secure_transport(u)), m.call("is_secure_transport", u))
+        # independent reading of "absolute": a scheme and a host
+        sp = up.urlsplit(u)
+        if bool(is_valid_url(u, True)) != (bool(sp.scheme) and bool(sp.hostname)):
+            ctx.violation("C18:is_valid_url:not-scheme-and-host", "is_valid_url disagrees with 'has a scheme and a host'", {"url": u})
+
+
 def run(ctx):
     ctx.rule = ("RFC 8414 and OIDC Discovery documents built from a valid base by deleting or retyping (34 values of "
                 "every JSON type, URL shapes, enumerations) every member (exhaustive) and pairs of members (seeded "
@@ -370,6 +399,7 @@ def run(ctx):
                 "3 server configurations x generated payloads (URI shapes, supported/unsupported scope, grant and "
                 "response types, auth methods, jwks) x token/permission/client_id/secret/forbidden-member variants; "
                 "distinct_nontrivial = distinct (class, mutation, outcome) resp. (mode, server, payload, outcome)")
+    run_urls(ctx)
     run_metadata(ctx)
     run_registration(ctx)
 
